@@ -352,4 +352,10 @@ classes have `z = 0`): the model at `x / (1+z)` -/
 def sampleAt (E : Env K) (C : BlackBody.BBConst K) (z : K) (b : Built K) (x : K) : Except Err K :=
   b.eval E C (x / (1 + z))
 
+/-- `sp(x)` for either redshift type: `'conserve_flux'` appends `Scale(1 / (1+z))` to the compound model
+(`SourceSpectrum.model`; for `z = 0` the bare model is used, where the factor is 1 anyway) -/
+def sampleAtType (E : Env K) (C : BlackBody.BBConst K) (conserve : Bool) (z : K) (b : Built K) (x : K) :
+    Except Err K :=
+  if conserve ∧ z ≠ 0 then (sampleAt E C z b x).map (· * (1 / (1 + z))) else sampleAt E C z b x
+
 end Synphot.Params
